@@ -110,6 +110,11 @@ def programs():
                       body=[("decl", ty, "lok", v1), ("decl", ty, "lok2", ("var", "lok")), ("expr", ("call", "fn_still", [("p", ("var", "lok2"))]))]
                       + dump("lok", ty) + dump("lok2", ty))
             yield lab + ":local-copy-value-arg-silent", prog([], [f, f3], [("expr", ("call", "fn_lokal2", [("u", ("int", 0))]))])
+            # the same with the callee declared first (`wird später definiert`) and defined behind its callers: its body is
+            # then looked at after other functions, and what it does to its parameter must still count for the callee
+            fw = dict(f, forward=True)
+            yield lab + ":local-value-arg-silent:forward-declared", prog([], [fw, f2], [("expr", ("call", "fn_lokal", [("u", ("int", 0))]))])
+            yield lab + ":local-copy-value-arg-silent:forward-declared", prog([], [fw, f3], [("expr", ("call", "fn_lokal2", [("u", ("int", 0))]))])
             # returning: the result is a copy of the global
             f = dict(name="fn_gib", params=[("u", "Z", False)], ret=ty, body=[("ret", a)])
             yield lab + ":return", prog([da], [f], [("decl", ty, "b", ("call", "fn_gib", [("u", ("int", 0))]))] + mut(b) + dump("a", ty) + dump("b", ty))
